@@ -17,6 +17,7 @@ import (
 	"testing"
 	"time"
 
+	"github.com/tinode/chat/server/store/types"
 	kit "github.com/tinode/chat/server/zzverifkit"
 	mem "github.com/tinode/chat/server/zzverifmem"
 	"pgregory.net/rapid"
@@ -192,7 +193,8 @@ func c15Gen(rt *rapid.T) wProg {
 		case x < 80:
 			p.Ops = append(p.Ops, wOp{K: "tick", N: 9000})
 		case x < 90:
-			p.Ops = append(p.Ops, wOp{K: gPick(rt, []string{"leave", "disc"}, "how"), S: gPick(rt, []int{a, b}, "who"), T: ta})
+			// (leaving for good - {leave unsub} - ends the call like any other way of leaving)
+			p.Ops = append(p.Ops, wOp{K: gPick(rt, []string{"leave", "disc", "leave"}, "how"), S: gPick(rt, []int{a, b}, "who"), T: ta, F: gPct(rt, 35)})
 		}
 		if stuck >= 0 {
 			p.Ops = append(p.Ops, wOp{K: "resume", S: stuck})
@@ -311,6 +313,14 @@ func (o *c15Obs) After(w *wWorld, st *wStep) *kit.Viol {
 	for _, tr := range post.Topics {
 		if strings.HasPrefix(tr.Name, "p2p") {
 			routes[tr.Name] = true
+		}
+	}
+	if o.pre != nil {
+		// (a topic whose last participant left for good in this step is gone from the store afterwards)
+		for _, tr := range o.pre.Topics {
+			if strings.HasPrefix(tr.Name, "p2p") {
+				routes[tr.Name] = true
+			}
 		}
 	}
 	// new messages per topic in this step
@@ -620,6 +630,22 @@ func (o *c15Obs) After(w *wWorld, st *wStep) *kit.Viol {
 		if expectAccept[r] {
 			return kit.V("accept-not-published", "valid acceptance of call %s on %s stored no 'accepted' replacement", c15Str(o.cur[r]), r)
 		}
+		gone := true
+		for _, tr := range post.Topics {
+			gone = gone && tr.Name != r
+		}
+		if e := expectEnd[r]; e != "" && gone {
+			// the last participant left for good: the topic went with everything in it, the call included
+			if lt := w.liveTopics()[r]; lt != nil && lt.HasCall {
+				return kit.V("call-survives-its-topic", "call %s on %s: the topic was deleted from the store, the live topic still holds the call", c15Str(o.cur[r]), r)
+			}
+			o.last[r] = 0
+			delete(o.cur, r)
+			delete(o.started, r)
+			delete(expectEnd, r)
+			o.kinds["end:topic-deleted"] = true
+			continue
+		}
 		if e := expectEnd[r]; e != "" && !strings.HasSuffix(e, "?") {
 			return kit.V("call-not-ended:"+e, "call %s on %s must have ended as '%s' during %s but no ending was published", c15Str(o.cur[r]), r, e, st.Op.K)
 		}
@@ -643,6 +669,10 @@ func (o *c15Obs) After(w *wWorld, st *wStep) *kit.Viol {
 			continue
 		}
 		r := w.routeOfName(name, u)
+		if r == "" && strings.HasPrefix(name, "usr") {
+			// (the recipient has just given the subscription up: the name still means the P2P topic with that user)
+			r = w.users[u].uid.P2PName(types.ParseUserId(name))
+		}
 		if !routes[r] {
 			return kit.V("call-frame-outside-p2p", "{info call %s topic=%s src=%s} at session %d", f.info.Event, f.info.Topic, f.info.Src, f.sess)
 		}
